@@ -26,6 +26,9 @@ def exact_crystals():
                    basis=[[a([0., 0.])], [a([.25, .125]), a([.625, .5])], [a([.5, .75])]],
                    chem=1, cutoff=1.0)
     X['X2b'] = dict(X['X2'], cutoff=1.05)
+    # 2-D p1 with THREE inequivalent mobile sites (NV=6, pinv branch with off-diagonal coupling between vector basis functions)
+    X['X5'] = dict(lattice=a([[1., .25], [0., 1.5]]),
+                   basis=[[a([0., 0.])], [a([.25, .125]), a([.625, .5]), a([.5, .75])]], chem=1, cutoff=0.8)
     # 2-D p2mm with TWO 4-orbits (both Wyckoff sets carry a site vector basis; inversion present: solve branch)
     X['X4'] = dict(lattice=a([[1., 0.], [0., 1.25]]),
                    basis=[[a([0., 0.])], [a([.125, .25]), a([.875, .25]), a([.125, .75]), a([.875, .75]),
@@ -216,3 +219,36 @@ def link_runs(k_base, k_other, scale=1):
         X0 = ENG.records['pinv'][k_base][1]
         cand = X0 if (not isinstance(scale, Sym) and scale == 1) else np.asarray(X0, dtype=object) * (1 / scale)
         contracts.unique_pinv_hint(ENG.records['pinv'][k_other], cand)
+
+
+def witness_instances(calc, inp):
+    """point instantiations at which sqrt(Z) is rational (site weights from a Pythagorean tuple spread over the
+    Wyckoff sets), with the exact values of the pinv unknowns supplied (contracts.witness_hyps): used as probes on the
+    pseudo-inverse branch, where z3 cannot construct the Moore-Penrose unknowns by itself"""
+    from fractions import Fraction as F
+    import itertools
+    nw = len(calc.sitelist)
+    if 'y_P0' not in inp.inputs:
+        return []
+    base = {1: [F(1)], 2: [F(3, 5), F(4, 5)], 3: [F(2, 7), F(3, 7), F(6, 7)], 4: [F(1, 2)] * 4}.get(nw)
+    if base is None:
+        return []
+    roots = [contracts._sqrt_fraction(F(1, len(w))) for w in calc.sitelist]
+    if any(r is None for r in roots):
+        return []
+    out = []
+    for k, perm in enumerate(list(itertools.permutations(range(nw)))[:3]):
+        fixed = {}
+        for w in range(nw):
+            fixed['y_P%d' % w] = base[perm[w]] * roots[w]
+            fixed['y_E%d' % w] = 1
+
+        def mk(fixed=fixed, k=k):
+            hyps = []
+            vals = [1.25, 0.75, 1.5, 0.875, 1.125, 2, 0.625, 1.75, 1.375, 0.5, 1.625, 1]
+            for n, (nm, y) in enumerate(sorted(inp.inputs.items())):
+                v = fixed.get(nm, vals[(n + k) % len(vals)])
+                hyps.append(y == (core.Sym(core.z3.RealVal(str(v))) if isinstance(v, F) else v))
+            return contracts.witness_hyps(hyps)
+        out.append(mk)
+    return out
